@@ -78,6 +78,20 @@ theorem C14_node (p0 : K × K) (tl : List (K × K)) (v : K) (p : K × K) (hs : S
   obtain ⟨a, b⟩ := mem_range tl p0 p hs hp
   rw [C14_formula, npInterp_in 0 0 p0 tl p.1 a b, interpIn_node (p0 :: tl) p hs hp]
 
+/-- **C14 (persistence).** The explicit pickle state, the table conversion and the text-file reader
+    (any column selection, units given by the caller) give back an object with the same wavelength
+    unit, the same opacity unit and the same table, hence the same `get_av` for every V and query. -/
+theorem C14_persist {U : Type} (law : ExtLaw U K) (v x : K) :
+    (extSetState (extGetState law) = law ∧ (extSetState (extGetState law)).av v x = law.av v x) ∧
+    (extFromTable (extToTable law) = law ∧ (extFromTable (extToTable law)).av v x = law.av v x) ∧
+    (∀ (rows : List (List K)) (i j : Nat),
+      rows.map (fun r => r[i]?) = law.wav.vals.map some →
+      rows.map (fun r => r[j]?) = law.chi.vals.map some →
+      extFromFile rows i j law.wav.unit law.chi.unit = .ok law) := by
+  refine ⟨⟨rfl, rfl⟩, ⟨rfl, rfl⟩, ?_⟩
+  intro rows i j hw hc
+  simp only [extFromFile, selectCols_ok i j rows _ _ hw hc]
+
 /-! ### Non-vacuity (over ℚ): a four-row table in µm covering V = 11/20 -/
 
 def exLaw : List (Rat × Rat) := [(1/10, 900), (1/2, 400), (1, 150), (10, 3)]
@@ -94,5 +108,11 @@ example : npInterpEdge exLaw (11/20) = 375 ∧ getAv exLaw (11/20) (3/4) = -(22/
     ∧ getAv exLaw (11/20) (11/20) = -(2/5) ∧ getAv exLaw (11/20) 11 = 0 ∧ getAv exLaw (11/20) 1 = -(4/25) := by
   simp [exLaw, getAv, negPt4, npInterpEdge, npInterp, interpIn, lastD, lin, two]
   norm_num
+
+-- persistence: a three-column text table read with columns (2, 0) gives back the law in nm, m²/kg
+example : extFromFile (K := Rat) [[900, 7, 100], [400, 7, 500], [150, 7, 1000]] 2 0 "nm" "m2/kg"
+    = .ok ⟨⟨"nm", [100, 500, 1000]⟩, ⟨"m2/kg", [900, 400, 150]⟩⟩
+    ∧ extFromFile (K := Rat) (U := String) [[900, 7, 100], [400, 7]] 2 0 "nm" "m2/kg" = .error .missingColumn := by
+  constructor <;> simp [extFromFile, selectCols]
 
 end SF
